@@ -215,6 +215,9 @@ func newV1(t *testing.T, cfg Config, gated bool) *v1run {
 	if err != nil {
 		t.Fatalf("v1.New: %v", err)
 	}
+	for p := range inputs { // the options map is the caller's again once New has returned
+		delete(inputs, p)
+	}
 	r.d = d
 	return r
 }
